@@ -184,6 +184,8 @@ let c03_hook : (case -> string -> string -> string -> bytes list -> bytes -> boo
 let stats_ok = ref 0 and stats_bad = ref 0 and stats_err = ref 0 and stats_panic = ref 0
 let model_eq = ref 0 and model_diff = ref 0
 let c02_checked = ref 0 and c02_bad = ref 0
+let c02_brute_runs = ref 0 and c02_brute_execs = ref 0 and c02_brute_max = ref 0
+let ms_keys_fwd : (ms -> int list) ref = ref (fun _ -> [])
 let hist : (string, int) Hashtbl.t = Hashtbl.create 64
 let bump k = Hashtbl.replace hist k (1 + (try Hashtbl.find hist k with Not_found -> 0))
 let frag_hist (toks : string list) =
@@ -298,7 +300,36 @@ let handle_run (c : case) (toks : string list) =
             incr c02_bad;
             Printf.printf "BAD C02 case=%s kind=%s mode=%s keymask=%s premask=%s lock=%d seq=%d desc=%s ms=%s wit=%s ssig=%s\n"
               c.id c.kind mode km pm c.lock c.seq c.desc mstr (hexs wit) (hex_of_bytes ssig)
-          | [] -> ()
+          | [] ->
+            (* the table has nothing: brute force over the caller's own material (bounded) so that a
+               gap in the table itself cannot hide a spend *)
+            if mall && !c02_brute_runs < !c02_brute_max then begin
+              incr c02_brute_runs;
+              let held_sigs = List.filter_map (fun (i, sg) -> if kmi land (1 lsl i) <> 0 then Some sg else None) c.sigs_idx in
+              let held_pre = List.filter_map (fun (j, p) -> if j < List.length !pres - 1 && pmi land (1 lsl j) <> 0 then Some p.pre else None) !pres in
+              let ks = List.sort_uniq compare (!ms_keys_fwd m) in
+              let alpha = Array.of_list (List.sort_uniq compare
+                  ([[]; [byte_tab.(1)]; List.init 32 (fun _ -> byte_tab.(0))] @ held_sigs @ held_pre @ List.map (fun i -> (key i).full) ks)) in
+              let a = Array.length alpha in
+              let maxlen = if a <= 6 then 5 else if a <= 9 then 4 else 3 in
+              let found = ref None in
+              let rec enum len prefix =
+                if !found <> None then ()
+                else if len = 0 then begin
+                  incr c02_brute_execs;
+                  let items = List.rev prefix in
+                  match wrap c items with
+                  | Some (ssig, wit) -> if verify_spend e (fun _ _ -> true) c.spk ssig wit then found := Some (ssig, wit)
+                  | None -> ()
+                end else Array.iter (fun x -> enum (len - 1) (x :: prefix)) alpha in
+              for len = 0 to maxlen do enum len [] done;
+              match !found with
+              | Some (ssig, wit) ->
+                incr c02_bad;
+                Printf.printf "BAD C02 case=%s kind=%s mode=%s keymask=%s premask=%s lock=%d seq=%d desc=%s ms=%s wit=%s ssig=%s found=bruteforce\n"
+                  c.id c.kind mode km pm c.lock c.seq c.desc mstr (hexs wit) (hex_of_bytes ssig)
+              | None -> ()
+            end
         end
       | _ -> ()
     end
@@ -591,7 +622,8 @@ let handle_plan (c : case) (toks : string list) =
   | _ -> failwith "bad PLAN line"
 
 let () =
-  if Array.length Sys.argv > 1 && Sys.argv.(1) = "--c03" then c03_hook := c03_search;
+  ms_keys_fwd := ms_keys;
+  Array.iter (fun a -> if a = "--c03" then c03_hook := c03_search; if a = "--brute" then c02_brute_max := 300) Sys.argv;
   let cur = ref None in
   let ncases = ref 0 in
   let upd f = match !cur with Some c -> f c | None -> () in
@@ -639,8 +671,8 @@ let () =
        | _ -> ()
      done
    with End_of_file -> ());
-  Printf.printf "SUMMARY cases=%d ok=%d bad=%d err=%d panic=%d model_eq=%d model_diff=%d c02_checked=%d c02_bad=%d c17_checked=%d c17_bad=%d c17_lockprobes=%d c03_checked=%d c03_bad=%d c03_candidates=%d\n"
-    !ncases !stats_ok !stats_bad !stats_err !stats_panic !model_eq !model_diff !c02_checked !c02_bad !c17_checked !c17_bad !c17_lockprobes !c03_checked !c03_bad !c03_candidates;
+  Printf.printf "SUMMARY cases=%d ok=%d bad=%d err=%d panic=%d model_eq=%d model_diff=%d c02_checked=%d c02_bad=%d c17_checked=%d c17_bad=%d c17_lockprobes=%d c03_checked=%d c03_bad=%d c03_candidates=%d c02_brute_runs=%d c02_brute_execs=%d\n"
+    !ncases !stats_ok !stats_bad !stats_err !stats_panic !model_eq !model_diff !c02_checked !c02_bad !c17_checked !c17_bad !c17_lockprobes !c03_checked !c03_bad !c03_candidates !c02_brute_runs !c02_brute_execs;
   if !c06_frags > 0 then begin
     Printf.printf "SUMMARY06 frags=%d execs=%d bad=%d\n" !c06_frags !c06_execs !c06_bad;
     Hashtbl.iter (fun k v -> Printf.printf "HIST06 %s %d\n" k v) c06_clauses
